@@ -10,8 +10,8 @@
    and the correspondence check reproduce).
    Specification (M.FeaturesSpec): [spec_step], written without reference to the order. *)
 From Coq Require Import List Arith Bool.
-From M Require Import Features FeaturesSpec FeaturesH FeaturesDyn.
-From P Require Import FeaturesP FeaturesHP FeaturesDynP.
+From M Require Import Features FeaturesSpec FeaturesH FeaturesDyn FeaturesRe.
+From P Require Import FeaturesP FeaturesHP FeaturesDynP FeaturesReP.
 Import ListNotations.
 
 (* Tags: is_<tag> answers True exactly for the state's tags (plus 'accepted', tag 0, when an
@@ -328,3 +328,57 @@ Theorem C19_retry_refuted_dynamic :
     nth 8 (map sobs_trace (spec_drun c ts (spec_init 0) h)) [] = [IEnter 5 0 1].
 Proof. exists kf4_cfg, kf4_ts, kf4_hist. vm_compute. repeat split. Qed.
 Print Assumptions C19_retry_refuted_dynamic.
+
+(* ------------------------------------------------------------------------------------
+   Re-entrant processing (M.FeaturesRe): on_enter callbacks that trigger an event on their
+   own model while the machine has no queue — the classic use of Retry: the enter callback
+   does the work and fires the reflexive retry event itself.  The nested event is processed
+   INSIDE State.enter of the entry in progress. *)
+
+(* For every order of the mixins, every table of re-triggering callbacks [tr] (any events,
+   any budgets), every history and fuel: per top-level call the complete trace (nested
+   entries included), the result / exception and every model's state are those of the
+   order-independent specification spec_rstep, in which an entry is counted BEFORE its enter
+   callbacks run: an entry nested in one of them already sees it, so a chain of nested self
+   re-entries reaches the limit exactly like a chain of separate calls.  (None = None: the
+   model runs out of fuel exactly when the specification does.) *)
+Theorem C19_retry_reentrant :
+  forall (c : fcfg) (tr : retrig) (fuel : nat) (h : list (fmodel * fevent)) (s0 : fstate_id)
+         (pre : fmodel -> fhook -> option nat) (k : nat) (m : fmodel),
+  feat_nodup (c_order c) = true ->
+  map (robs m) (rrun fuel c tr (mkRW (init_world_p s0 pre k) (fun _ => 0)) h) =
+  map (srobs m) (spec_rrun fuel c tr (mkSRW (spec_init_p s0 pre k) (fun _ => 0)) h).
+Proof. exact rrun_spec_init. Qed.
+Print Assumptions C19_retry_reentrant.
+
+(* callbacks that do not re-trigger: one call of the re-entrant engine is fstep *)
+Theorem C19_reentrant_static : forall (f : nat) (c : fcfg) (rw : rworld) (m : fmodel) (e : fevent),
+  rforget (rstep (S f) c no_retrig rw m e) = Some (fstep c (rw_w rw) m e).
+Proof. exact rstep_static. Qed.
+Print Assumptions C19_reentrant_static.
+
+(* the mixins' enter code ahead of State.enter is enter_chain without the callbacks *)
+Theorem C19_reentrant_prefix :
+  forall (c : fcfg) (fs : list feature) (m : fmodel) (src d : fstate_id) (r : mrec) (f : nat)
+         (it : list fitem) (r' : mrec) (f' : nat) (v : verdict),
+  enter_pre c fs m src d r f = (it, r', f', v) ->
+  enter_chain c fs m src d r f =
+    (it ++ (match v with VProceed => enter_items c m d | _ => [] end), r', f',
+     match v with VRaised => true | _ => false end).
+Proof. exact chain_pre. Qed.
+Print Assumptions C19_reentrant_prefix.
+
+(* The scenario of the classic use: @add_state_features(Volatile, Retry); idle(0), fetch(1,
+   retries=2, on_enter 5, on_failure 9); start: idle->fetch, retry: fetch->fetch; callback 5
+   fires retry (up to 7 times).  One call of start: the first entry and exactly 2 nested
+   re-entries run the enter callback, the third nested re-entry runs on_failure instead, and
+   nothing is re-triggered any more. *)
+Example C19_retry_reentrant_demo :
+  let c := mkCfg [FVolatile; FRetry]
+                 [(0, fs_default); (1, mkFS [5] [] [] false 0 2 (Some 9))]
+                 [mkFT 0 0 (Some 1); mkFT 1 1 (Some 1)] false in
+  let tr := fun cb => if Nat.eqb cb 5 then Some (1, 7) else None in
+  map (robs 0) (rrun 20 c tr (mkRW (init_world 0) (fun _ => 0)) [(0, 0)]) =
+    [Some ([IEnter 5 0 1; IEnter 5 0 1; IEnter 5 0 1; IFail 9 0 1], RTrue, 1)].
+Proof. vm_compute. reflexivity. Qed.
+Print Assumptions C19_retry_reentrant_demo.
